@@ -26,8 +26,14 @@ import (
 // Parent mode: for daemon delay {0,50,300 ms} x launcher pause {0,200 ms} (hook VERIF_PAUSE_LAUNCH_AFTERSTART,
 // read by the launcher, inherited through os.Environ()) x {1,4} concurrent Launch calls:
 //
-//	E <delay_ms> <pause_ms> <n> <i> <class> <pid_matches> <marker_at_return> <alive> <reparented> <launcher_gone> <hex err>
+//	E <delay_ms> <pause_ms> <n> <i> <class> <pid_matches> <marker_at_return> <alive> <reparented> <launcher_gone> <survived> <variant> <hex err>
 //	VIOL <scenario> ...      when a Launch violates the property (the same case also has its E line)
+//
+// Daemon handler variants (VERIF_C20_STDERR, set by the caller per scenario): none | before | after | both —
+// the handler writes a line to its stderr before Done() and / or 100 ms after Done(). 100 ms after Done() (after
+// the late write, if any) every daemon touches <dir>/late.<pid>. <survived>: some 300 ms after Launch returned the
+// daemon is still running and its late marker exists ("the daemon keeps running after Launch returns", also
+// when it uses its stderr).
 //
 // class: ok | run ("start launcher: …") | stderr | stdout ("launcher stdout: …") | other (timeout).
 // The daemon writes <dir>/marker.<its pid> ("<pid> <unix nanos>") before Done(), so the daemon of a FAILED
@@ -39,6 +45,9 @@ const (
 	envDelay    = "VERIF_C20_DELAY"
 	envLife     = "VERIF_C20_LIFE"
 	envPause    = "VERIF_PAUSE_LAUNCH_AFTERSTART"
+	envStderr   = "VERIF_C20_STDERR"
+	lateAfter   = 100 * time.Millisecond // the daemon's late stderr write / late marker, after Done()
+	surviveWait = 300 * time.Millisecond // when the caller looks at the daemon again, after Launch returned
 )
 
 func init() { daemon.Register(handlerName, c20Daemon) }
@@ -50,15 +59,20 @@ func main() {
 	hk.Main("C20", runC20)
 }
 
-// c20Daemon is the registered handler: marker, optional delay, Done(), live on.
+// c20Daemon is the registered handler: marker, optional stderr line, optional delay, Done(), optional late
+// stderr line, late marker, live on.
 func c20Daemon() {
 	dir := os.Getenv(envDir)
+	variant := os.Getenv(envStderr)
 	pid := os.Getpid()
 	if dir != "" {
 		tmp := filepath.Join(dir, fmt.Sprintf(".tmp.%d", pid))
 		if err := os.WriteFile(tmp, []byte(fmt.Sprintf("%d %d\n", pid, time.Now().UnixNano())), 0o644); err == nil {
 			os.Rename(tmp, filepath.Join(dir, fmt.Sprintf("marker.%d", pid)))
 		}
+	}
+	if variant == "before" || variant == "both" {
+		fmt.Fprintf(os.Stderr, "c20 daemon %d: starting up\n", pid)
 	}
 	if d, err := time.ParseDuration(os.Getenv(envDelay)); err == nil && d > 0 {
 		time.Sleep(d)
@@ -70,6 +84,14 @@ func c20Daemon() {
 			msg = derr.Error()
 		}
 		os.WriteFile(filepath.Join(dir, fmt.Sprintf("done.%d", pid)), []byte(fmt.Sprintf("%d %s\n", time.Now().UnixNano(), msg)), 0o644)
+	}
+	time.Sleep(lateAfter)
+	if variant == "after" || variant == "both" {
+		// with a broken pipe as fd 2 this write raises SIGPIPE and the Go runtime lets it kill the process
+		fmt.Fprintf(os.Stderr, "c20 daemon %d: serving\n", pid)
+	}
+	if dir != "" {
+		os.WriteFile(filepath.Join(dir, fmt.Sprintf("late.%d", pid)), []byte(fmt.Sprintf("%d\n", time.Now().UnixNano())), 0o644)
 	}
 	life := 20 * time.Second
 	if d, err := time.ParseDuration(os.Getenv(envLife)); err == nil && d > 0 {
@@ -188,7 +210,10 @@ type launchObs struct {
 	alive      bool
 	ppid       int
 	reparented bool
+	survived   bool
+	stateLater string // /proc state when looked at again ("gone" when the process has disappeared)
 	took       time.Duration
+	returned   time.Time
 }
 
 func classify(err error) string {
@@ -236,6 +261,7 @@ func oneLaunch(dir string) launchObs {
 		o.err = fmt.Errorf("Launch did not return within 15s")
 	}
 	o.took = time.Since(t0)
+	o.returned = time.Now()
 	// observations at the moment Launch returned
 	if o.timedOut {
 		o.class = "other"
@@ -300,6 +326,7 @@ func runC20(e *hk.Env) error {
 		os.Unsetenv(envDir)
 		os.Unsetenv(envDelay)
 		os.Unsetenv(envLife)
+		os.Unsetenv(envStderr)
 	}()
 
 	delays := []int{0, 50, 300}
@@ -323,130 +350,214 @@ func runC20(e *hk.Env) error {
 	}
 	os.Setenv(envLife, "20s")
 	self := os.Getpid()
-	cases, viols, groups, leakedTotal := 0, 0, 0, 0
+	cases, viols, groups, leakedTotal, notSurvived := 0, 0, 0, 0, 0
 	classHist := map[string]int{}
 	ppidHist := map[string]int{}
+	variantHist := map[string]int{}
 	var maxTook time.Duration
-	for round := 0; round < rounds; round++ {
-		for _, pause := range pauses {
-			for _, delay := range delays {
-				for _, n := range conc {
-					groups++
-					dir := filepath.Join(base, fmt.Sprintf("g%d", groups))
-					os.MkdirAll(dir, 0o755)
-					os.Setenv(envDir, dir)
-					os.Setenv(envDelay, fmt.Sprintf("%dms", delay))
-					if pause > 0 {
-						os.Setenv(envPause, fmt.Sprintf("%dms", pause))
-					} else {
-						os.Unsetenv(envPause)
-					}
-					obs := make([]launchObs, n)
-					var wg sync.WaitGroup
-					for i := 0; i < n; i++ {
-						wg.Add(1)
-						go func(i int) {
-							defer wg.Done()
-							obs[i] = oneLaunch(dir)
-						}(i)
-					}
-					wg.Wait()
-					// the launchers are gone: this process has no child left
-					kids := childrenOf(self)
-					gone := len(kids) == 0
-					// daemons that are running: claimed by a successful Launch, or leaked by a failed one
-					claimed := map[int]bool{}
-					for _, o := range obs {
-						if o.err == nil {
-							claimed[o.pid] = true
-						}
-					}
-					// a failed Launch's daemon may still be on its way to the marker: give it a moment before counting
-					anyFailed := false
-					for _, o := range obs {
-						if o.err != nil {
-							anyFailed = true
-						}
-					}
-					if anyFailed {
-						time.Sleep(time.Duration(delay+150) * time.Millisecond)
-					}
-					var leaked []int
-					for _, p := range strays(dir) {
-						if !claimed[p] && readStat(p).ppid != self {
-							leaked = append(leaked, p)
-						}
-					}
-					leakedTotal += len(leaked)
-					// a failed Launch returns no pid: "its daemon is alive" is judged on the group — as many unclaimed
-					// daemons (with their markers) are running as Launch calls failed
-					nFailed, leakedMarkers := 0, 0
-					for _, o := range obs {
-						if o.err != nil {
-							nFailed++
-						}
-					}
-					for _, p := range leaked {
-						if mp, ok := markerPid(dir, p); ok && mp == p {
-							leakedMarkers++
-						}
-					}
-					for i := range obs {
-						if obs[i].err != nil {
-							obs[i].alive = len(leaked) >= nFailed
-							obs[i].marker = leakedMarkers >= nFailed
-						}
-					}
-					for i, o := range obs {
-						cases++
-						classHist[o.class]++
-						if o.err == nil {
-							ppidHist[strconv.Itoa(o.ppid)]++
-						}
-						if o.took > maxTook {
-							maxTook = o.took
-						}
-						errText := ""
-						if o.err != nil {
-							errText = o.err.Error()
-						}
-						e.Case("E", strconv.Itoa(delay), strconv.Itoa(pause), strconv.Itoa(n), strconv.Itoa(i), o.class,
-							b01(o.pidMatches), b01(o.marker), b01(o.alive), b01(o.reparented), b01(gone), hk.Hxs(errText))
-						good := o.err == nil && o.pidMatches && o.marker && o.alive && o.reparented && gone
-						if !good {
-							viols++
-							e.Case("VIOL", fmt.Sprintf("delay=%dms", delay), fmt.Sprintf("pause=%dms", pause), fmt.Sprintf("n=%d", n),
-								fmt.Sprintf("i=%d", i), fmt.Sprintf("err=%q", errText), fmt.Sprintf("pid=%d", o.pid),
-								"pid_matches="+b01(o.pidMatches), "marker_at_return="+b01(o.marker), "alive="+b01(o.alive),
-								fmt.Sprintf("ppid=%d", o.ppid), "launcher_gone="+b01(gone),
-								fmt.Sprintf("daemons_running_unclaimed=%v", leaked))
-						}
-						if i == 0 && round == 0 {
-							e.Sample("samples", map[string]any{"delay_ms": delay, "pause_ms": pause, "concurrent": n, "err": errText,
-								"pid": o.pid, "daemon_ppid": o.ppid, "took_ms": o.took.Milliseconds()}, 5)
-						}
-					}
-					// always clean up: claimed daemons, leaked daemons, stuck launchers
-					all := strays(dir)
-					killAndWait(all)
-					if left := strays(dir); len(left) > 0 {
-						e.Count("cleanup_left_running", len(left))
-					}
-				}
+
+	type scenario struct {
+		delay, pause, n int
+		variant         string
+	}
+	var scenarios []scenario
+	for _, pause := range pauses {
+		for _, delay := range delays {
+			for _, n := range conc {
+				scenarios = append(scenarios, scenario{delay, pause, n, "none"})
 			}
 		}
 	}
+	// the stderr variants on the two extreme timings (thorough: on every timing)
+	for _, v := range []string{"before", "after", "both"} {
+		if e.Thorough() || e.Replay != "" {
+			for _, pause := range pauses {
+				for _, delay := range delays {
+					for _, n := range conc {
+						scenarios = append(scenarios, scenario{delay, pause, n, v})
+					}
+				}
+			}
+			continue
+		}
+		for _, n := range conc {
+			scenarios = append(scenarios, scenario{delays[0], pauses[0], n, v})
+			scenarios = append(scenarios, scenario{delays[len(delays)/2], pauses[len(pauses)-1], n, v})
+		}
+	}
+
+	type group struct {
+		sc       scenario
+		round    int
+		dir      string
+		obs      []launchObs
+		gone     bool
+		leaked   []int
+		returned time.Time // when the last Launch of the group returned
+	}
+	// finalize: look at the daemons again (surviveWait after Launch returned), write the cases, clean up
+	finalize := func(g *group) {
+		if w := surviveWait - time.Since(g.returned); w > 0 {
+			time.Sleep(w)
+		}
+		for i := range g.obs {
+			o := &g.obs[i]
+			if o.err != nil || o.pid <= 0 {
+				continue
+			}
+			// the late marker appears lateAfter after Done(); give a slow machine up to 2 s, a dead daemon none
+			deadline := time.Now().Add(2 * time.Second)
+			for {
+				st := readStat(o.pid)
+				running := st.ok && st.state != 'Z' && st.state != 'X'
+				_, lerr := os.Stat(filepath.Join(g.dir, fmt.Sprintf("late.%d", o.pid)))
+				if !st.ok {
+					o.stateLater = "gone"
+				} else {
+					o.stateLater = string(st.state)
+				}
+				if running && lerr == nil {
+					o.survived = true
+					break
+				}
+				if !running || time.Now().After(deadline) {
+					break
+				}
+				time.Sleep(10 * time.Millisecond)
+			}
+		}
+		for i, o := range g.obs {
+			cases++
+			classHist[o.class]++
+			variantHist[g.sc.variant]++
+			if o.err == nil {
+				ppidHist[strconv.Itoa(o.ppid)]++
+				if !o.survived {
+					notSurvived++
+				}
+			}
+			if o.took > maxTook {
+				maxTook = o.took
+			}
+			errText := ""
+			if o.err != nil {
+				errText = o.err.Error()
+			}
+			e.Case("E", strconv.Itoa(g.sc.delay), strconv.Itoa(g.sc.pause), strconv.Itoa(g.sc.n), strconv.Itoa(i), o.class,
+				b01(o.pidMatches), b01(o.marker), b01(o.alive), b01(o.reparented), b01(g.gone), b01(o.survived), g.sc.variant, hk.Hxs(errText))
+			good := o.err == nil && o.pidMatches && o.marker && o.alive && o.reparented && g.gone && o.survived
+			if !good {
+				viols++
+				e.Case("VIOL", fmt.Sprintf("delay=%dms", g.sc.delay), fmt.Sprintf("pause=%dms", g.sc.pause), fmt.Sprintf("n=%d", g.sc.n),
+					"daemon_stderr="+g.sc.variant, fmt.Sprintf("i=%d", i), fmt.Sprintf("err=%q", errText), fmt.Sprintf("pid=%d", o.pid),
+					"pid_matches="+b01(o.pidMatches), "marker_at_return="+b01(o.marker), "alive_at_return="+b01(o.alive),
+					fmt.Sprintf("ppid=%d", o.ppid), "launcher_gone="+b01(g.gone),
+					fmt.Sprintf("survived_%dms_after_return=%s", surviveWait.Milliseconds(), b01(o.survived)), "state_later="+o.stateLater,
+					fmt.Sprintf("daemons_running_unclaimed=%v", g.leaked))
+			}
+			if i == 0 && g.round == 0 {
+				e.Sample("samples", map[string]any{"delay_ms": g.sc.delay, "pause_ms": g.sc.pause, "concurrent": g.sc.n,
+					"daemon_stderr": g.sc.variant, "err": errText, "pid": o.pid, "daemon_ppid": o.ppid, "survived": o.survived,
+					"took_ms": o.took.Milliseconds()}, 8)
+			}
+		}
+		// always clean up: claimed daemons, leaked daemons, stuck launchers
+		killAndWait(strays(g.dir))
+		if left := strays(g.dir); len(left) > 0 {
+			e.Count("cleanup_left_running", len(left))
+		}
+	}
+	var pend []*group
+	defer func() {
+		// whatever happens (panic included): nothing of ours stays behind
+		for _, g := range pend {
+			killAndWait(strays(g.dir))
+		}
+	}()
+	drain := func(all bool) {
+		for len(pend) > 0 && (all || time.Since(pend[0].returned) >= surviveWait) {
+			finalize(pend[0])
+			pend = pend[1:]
+		}
+	}
+
+	for round := 0; round < rounds; round++ {
+		for _, sc := range scenarios {
+			groups++
+			g := &group{sc: sc, round: round, dir: filepath.Join(base, fmt.Sprintf("g%d", groups))}
+			os.MkdirAll(g.dir, 0o755)
+			os.Setenv(envDir, g.dir)
+			os.Setenv(envDelay, fmt.Sprintf("%dms", sc.delay))
+			os.Setenv(envStderr, sc.variant)
+			if sc.pause > 0 {
+				os.Setenv(envPause, fmt.Sprintf("%dms", sc.pause))
+			} else {
+				os.Unsetenv(envPause)
+			}
+			g.obs = make([]launchObs, sc.n)
+			var wg sync.WaitGroup
+			for i := 0; i < sc.n; i++ {
+				wg.Add(1)
+				go func(i int) {
+					defer wg.Done()
+					g.obs[i] = oneLaunch(g.dir)
+				}(i)
+			}
+			wg.Wait()
+			g.returned = time.Now()
+			pend = append(pend, g)
+			// the launchers are gone: this process has no child left (daemons of earlier groups are not our children)
+			g.gone = len(childrenOf(self)) == 0
+			// daemons that are running: claimed by a successful Launch, or leaked by a failed one
+			claimed := map[int]bool{}
+			nFailed := 0
+			for _, o := range g.obs {
+				if o.err == nil {
+					claimed[o.pid] = true
+				} else {
+					nFailed++
+				}
+			}
+			if nFailed > 0 {
+				// a failed Launch's daemon may still be on its way to the marker: give it a moment before counting
+				time.Sleep(time.Duration(sc.delay+150) * time.Millisecond)
+				leakedMarkers := 0
+				for _, p := range strays(g.dir) {
+					if !claimed[p] && readStat(p).ppid != self {
+						g.leaked = append(g.leaked, p)
+						if mp, ok := markerPid(g.dir, p); ok && mp == p {
+							leakedMarkers++
+						}
+					}
+				}
+				leakedTotal += len(g.leaked)
+				// a failed Launch returns no pid: "its daemon is alive" is judged on the group — as many unclaimed
+				// daemons (with their markers) are running as Launch calls failed
+				for i := range g.obs {
+					if g.obs[i].err != nil {
+						g.obs[i].alive = len(g.leaked) >= nFailed
+						g.obs[i].marker = leakedMarkers >= nFailed
+					}
+				}
+			}
+			drain(false)
+		}
+	}
+	drain(true)
+	os.Unsetenv(envStderr)
 	e.Stats["cases"] = cases
 	e.Stats["groups"] = groups
 	e.Stats["harness_violations"] = viols
 	e.Stats["outcome_classes"] = classHist
 	e.Stats["daemon_parent_pids"] = ppidHist
 	e.Stats["daemons_leaked_by_failed_launches"] = leakedTotal
+	e.Stats["daemons_dead_after_return"] = notSurvived
+	e.Stats["daemon_stderr_variants"] = variantHist
 	e.Stats["max_launch_ms"] = maxTook.Milliseconds()
 	e.Stats["delays_ms"] = delays
 	e.Stats["pauses_ms"] = pauses
 	e.Stats["concurrency"] = conc
 	e.Stats["rounds"] = rounds
-	e.Stats["distinct_nontrivial"] = len(delays) * len(pauses) * len(conc)
+	e.Stats["distinct_nontrivial"] = len(scenarios)
 	return nil
 }
